@@ -54,6 +54,7 @@ pub open spec fn lists_children(t: Tree, p: Seq<char>, names: Seq<Seq<char>>) ->
     &&& forall|i: int| 0 <= i < names.len() ==> is_child(t, p, #[trigger] names[i])
     &&& forall|n: Seq<char>| is_child(t, p, n) ==> exists|i: int| 0 <= i < names.len() && names[i] == n
     &&& forall|i: int, j: int| 0 <= i < j < names.len() ==> names[i] != names[j]
+    &&& (names.len() == 0 <==> no_children(t, p))
 }
 pub open spec fn string_views(v: Seq<String>) -> Seq<Seq<char>> { Seq::new(v.len(), |i: int| v[i]@) }
 pub open spec fn tc_read_dir_ok(pre: Tree, p: Seq<char>, names: Seq<Seq<char>>, post: Tree) -> bool {
